@@ -144,6 +144,14 @@ func do10(e *encode.Encoder, l int, r *run.Rng, o *gen.Opts) (op rec.Op, recorde
 		case 4:
 			// finite, ordered bounds whose difference is beyond float32
 			vb = ivg.ViewBox{MinX: -2.5e38, MinY: -1, MaxX: 2.5e38, MaxY: 1}
+		case 5:
+			// a palette that mixes colours of the different encodable classes in any order
+			pal = gen.Palette(r)
+			if r.Bool() {
+				pal[r.Intn(8)] = color.RGBA{0x40, 0x80, 0xc0, 0xff} // 1-byte colour without a 2-byte form
+				pal[r.Intn(8)] = color.RGBA{0x33, 0x88, 0x00, 0xff} // 2-byte colour without a 1-byte form
+				pal[r.Intn(64)] = color.RGBA{0x40, 0x40, 0x40, 0x40}
+			}
 		}
 		p := pal
 		op = rec.Op{K: rec.KReset, VB: vb, Pal: &p}
